@@ -32,6 +32,22 @@ sed -i 's/if length < 12 || length > 24 || length%3 != 0 {/if !(length >= 12 \&\
 sed -i 's/if wordCount%3 != 0 || wordCount < 12 || wordCount > 24 {/if wordCount < 12 || 24 < wordCount || wordCount%3 > 0 {/' "$R/mnemonic.go"
 (cd "$R" && GOFLAGS=-mod=mod GOPROXY=off GOSUMDB=off GOTOOLCHAIN=local go build ./... ) || { echo "selftest: gate rewrite does not compile"; fail=1; }
 quiet gate-rewrite C09 C15 C14
+# 1d a harmless restructuring of two function bodies: extra locals, moved pure statements (the skeletons
+#    no longer match; the regenerated translation is re-proved equal to the model)
+python3 - "$R" <<'PY'
+import sys
+r = sys.argv[1]
+p = r + "/entropy.go"; s = open(p).read()
+s = s.replace("csBitLen := uint(len(entropy) / 4)", "entLen := len(entropy)\n\tcsBitLen := uint(entLen / 4)")
+s = s.replace("\twordList := make([]string, wordLen)\n\tlgList := lg.list()\n", "\tlgList := lg.list()\n\twordList := make([]string, wordLen)\n")
+open(p, "w").write(s)
+p = r + "/mnemonic.go"; s = open(p).read()
+s = s.replace("wordCount := len(wordList)\n", "wordCount := len(wordList)\n\tcsLen := wordCount / 3\n")
+s = s.replace("var shift int64 = 1 << uint(wordCount/3)", "var shift int64 = 1 << uint(csLen)")
+open(p, "w").write(s)
+PY
+(cd "$R" && GOFLAGS=-mod=mod GOPROXY=off GOSUMDB=off GOTOOLCHAIN=local go build ./... && go test ./... >/dev/null 2>&1) || { echo "selftest: restructuring does not build/pass"; fail=1; }
+quiet restructured C01 C03 C13
 # 2 seeded changes
 res=$(tools/mutants.sh "$R" seeded/C01/1 seeded/C03/2 seeded/C06/2 seeded/C09/2 seeded/C10/1 seeded/C13/2 seeded/C16/2 2>&1)
 echo "$res" | cut -c1-160
